@@ -222,8 +222,18 @@ pub fn c12_predicate(w: &World, dump: &PoolDump, ch: &Change, before: Option<&Po
     for e in &dump.entries {
         let exp = if view.contains_proposed(&e.id) { Status::Proposed } else if view.contains_gap(&e.id) { Status::Gap } else { Status::Pending };
         c(&format!("c12_stage_{}", status_name(exp)), 1);
+        if w.straddle_tx.as_ref() == Some(&e.id) { c(&format!("c12_stage_of_straddling_submission_{}", status_name(exp)), 1); }
         if exp != e.status {
-            let sig = if e.status == Status::Gap && exp == Status::Pending && !ch.old_set.contains(&e.id) { Some(SIG_GAP) } else { None };
+            // F13's own mechanism: the entry sat in the pool in stage Gap when the pool processed the change (Gap in the
+            // dump before; an entry the dump before does not show arrived through the service's own tasks — a racing
+            // submission, a re-verified RBF victim — and is given the benefit of the doubt), its id was not in the old
+            // proposed set (so it is not among the detached proposal ids) and has left the window from the gap.  An entry
+            // inserted by the two-step submission that straddled this change was NOT pooled when the change was
+            // processed: its stage is the one submit_entry gave it, never F13.
+            let straddled = w.straddle_tx.as_ref() == Some(&e.id);
+            let was_gap = before.and_then(|b| b.entries.iter().find(|x| x.id == e.id)).map(|x| x.status == Status::Gap).unwrap_or(true);
+            let sig = if e.status == Status::Gap && exp == Status::Pending && !ch.old_set.contains(&e.id) && was_gap && !straddled { Some(SIG_GAP) } else { None };
+            if straddled { c("c12_stage_mismatch_of_straddling_submission", 1); }
             problems.push(("C12 stage of a pooled tx does not match the proposal window of the new chain".into(),
                 json!({"tx": w.tx_no(&e.tx_hash), "stage": status_name(e.status), "window_says": status_name(exp), "tip": snap.tip_number()}), sig));
         }
